@@ -25,6 +25,23 @@ pub fn eval_hist(a: &[&str]) -> Option<String> {
                     for _ in 0..f[3].parse::<usize>().ok()? { let len = it.len(); let item = it.next(); h.push(format!("{}:{}", len, match item { Some(v) => format!("S{}", int(*v)), None => "N".into() })); }
                     h.join(",") }
             },
+            // a view iterator advanced `k` times with next() and then drained through the provided methods that iterate internally
+            // (count, sum, last, fold, for_each, max_by): each on its own iterator brought to the same position
+            "vdrain" => match arr.get_axis(Axis(f[1].parse().ok()?), f[2].parse().ok()?) {
+                None => "NOVIEW".into(),
+                Some(view) => {
+                    let k: usize = f[3].parse().ok()?;
+                    let adv = || { let mut it = view.iter(); for _ in 0..k { it.next(); } it };
+                    let len = adv().len();
+                    let count = adv().count();
+                    let sum: f64 = adv().copied().sum();
+                    let last = adv().last().map(|v| int(*v)).unwrap_or_else(|| "N".into());
+                    let fold = adv().fold(0u64, |acc, v| acc.wrapping_mul(31).wrapping_add(*v as u64) % 1_000_003);
+                    let mut each = Vec::new(); adv().for_each(|v| each.push(int(*v)));
+                    let maxv = adv().map(|v| *v as u64).max().map(|v| v.to_string()).unwrap_or_else(|| "N".into());
+                    format!("{len},{count},{},{last},{fold},{},{maxv}", int(sum), each.join("/"))
+                }
+            },
             "axis" => { let mut it = arr.iter_axis(Axis(f[1].parse().ok()?)); let mut h = Vec::new();
                 for _ in 0..f[2].parse::<usize>().ok()? { let len = it.len(); let item = it.next();
                     h.push(format!("{}:{}", len, match item { Some(v) => format!("S{}", v.iter().map(|x| int(*x)).collect::<Vec<_>>().join("/")), None => "N".into() })); }
@@ -56,7 +73,8 @@ fn gen_hist(rng: &mut Rng, n: usize, out: &mut Vec<String>) {
             match rng.below(10) {
                 0 | 1 => { let idx: Vec<usize> = cur.iter().map(|v| { let extra = if rng.chance(1, 8) { 1 } else { 0 }; rng.below(*v as u64 + extra) as usize }).collect(); ops.push(format!("get:{}", nats(&idx))); }
                 2 | 3 => ops.push(format!("set:{}:{}", rng.below(curlen as u64), rng.range(0, 999))),
-                4 | 5 => ops.push(format!("view:{ax}:{}:{}", rng.below(cur[ax] as u64), curlen / cur[ax] + 3)),
+                4 => ops.push(format!("view:{ax}:{}:{}", rng.below(cur[ax] as u64), curlen / cur[ax] + 3)),
+                5 => { let vlen = curlen / cur[ax]; ops.push(format!("vdrain:{ax}:{}:{}", rng.below(cur[ax] as u64), [0usize, 1, 1, 2, vlen / 2, vlen.saturating_sub(1), vlen, vlen + 1][rng.below(8) as usize])); }
                 6 => ops.push(format!("axis:{ax}:{}", cur[ax] + 2)),
                 7 => ops.push(format!("indices:{}", curlen.min(40) + 2)),
                 8 => if cur.len() > 1 { if rng.chance(1, 2) { ops.push(format!("resum:{ax}")); cur.remove(ax); } else { ops.push(format!("sum:{ax}")); } } else { ops.push("clone".into()); },
@@ -154,6 +172,18 @@ pub fn gen(ctx: &Ctx, rng: &mut Rng, out: &mut Vec<String>) {
     // random larger shapes with unequal lengths
     for _ in 0..(if ctx.tier_thorough { 200 } else { 30 }) {
         shp.push(shapes::random_shape(rng, 1, 5, 1, 7, 600));
+    }
+    // arrays without elements: every shape with 1-3 axes of length 0..3 that contains a zero-length axis — index iterators, axis
+    // iterators, every axis view (positions inside the axis and one past it), axis sums
+    for s in shapes::all_shapes(1, 3, 0, 3).into_iter().filter(|s| s.contains(&0)) {
+        let d = s.len();
+        out.push(format!("c19.indices\t{}\t3", nats(&s)));
+        out.push(format!("c19.get\t{}\t{}", nats(&s), nats(&vec![0; d])));
+        for ax in 0..d {
+            out.push(format!("c19.axis\t{}\t{}\t{}", nats(&s), ax, s[ax] + 3));
+            for pos in 0..=s[ax] { out.push(format!("c19.view\t{}\t{}\t{}\t3", nats(&s), ax, pos)); }
+            out.push(format!("c19.sum\t{}\t{}\t-", nats(&s), ax));
+        }
     }
     let big = usize::MAX;
     for s in &shp {
